@@ -266,6 +266,11 @@ def fields(draw, versions: list[int], flex: set[int], top: int, depth: int, stru
             f["ignorable"] = True
         if draw(st.booleans()):
             f["about"] = f"The {f['name']} field."
+        # field-level keys without meaning for the models
+        if f["type"] == "bytes" and draw(st.integers(0, 2)) == 0:
+            f["zeroCopy"] = True
+        if depth >= 1 and not out and f["type"] in ("int32", "string", "int16") and "tag" not in f and draw(st.integers(0, 3)) == 0:
+            f["mapKey"] = True
         out.append(f)
     return out
 
@@ -294,6 +299,13 @@ def definition(draw, api_word: str, api_key: int, nullable_prim_arrays: bool = F
     if etype in ("request", "response"):
         doc["apiKey"] = api_key
     doc.update({"type": etype, "name": name, "validVersions": f"{lo}-{hi}" if hi > lo else str(lo), "flexibleVersions": flexible})
+    # top-level keys of the upstream format that carry no meaning for the generated models: they must not change anything
+    if draw(st.integers(0, 2)) == 0:
+        doc["latestVersionUnstable"] = draw(st.booleans())
+    if hi > lo and draw(st.integers(0, 3)) == 0:
+        doc["deprecatedVersions"] = f"{lo}-{draw(st.integers(lo, hi - 1))}" if draw(st.booleans()) else str(lo)
+    if etype == "request" and draw(st.booleans()):
+        doc["listeners"] = draw(st.sampled_from([["zkBroker", "broker"], ["controller"], ["zkBroker", "broker", "controller"]]))
     doc["fields"] = draw(fields(versions, flex, hi, 0, struct_names, commons, True, nullable_prim_arrays))
     if commons:
         doc["commonStructs"] = commons
